@@ -895,6 +895,8 @@ class SyncObj(object):
             newEntries = message.get('entries', [])
             serialized = message.get('serialized', None)
             self.__leaderCommitIndex = leaderCommitIndex = message['commit_index']
+            # Becomes True only when this message proved that our log matches the leader's
+            logVerified = False
 
             # Regular append entries
             if 'prevLogIdx' in message:
@@ -948,14 +950,16 @@ class SyncObj(object):
                     nextNodeIdx = newEntries[-1][1] + 1
 
                 self.__sendNextNodeIdx(node, nextNodeIdx=nextNodeIdx, success=True)
+                logVerified = True
 
             # Install snapshot
             elif serialized is not None:
                 if self.__serializer.setTransmissionData(serialized):
                     self.__loadDumpFile(clearJournal=True)
                     self.__sendNextNodeIdx(node, success=True)
+                    logVerified = True
 
-            if leaderCommitIndex > self.__raftCommitIndex:
+            if logVerified and leaderCommitIndex > self.__raftCommitIndex:
                 self.__raftCommitIndex = min(leaderCommitIndex, self.__getCurrentLogIndex())
 
             self.__raftLog.setRaftCommitIndex(self.__raftCommitIndex)
